@@ -232,11 +232,15 @@ def judgeE2E (fs : List String) (out : List String) : String :=
     | some (k, v) => s!"VIOL e2e {k} want={v.take 40} got={((got.lookup k).getD "<missing>").take 40}"
     | none =>
       let sc := (fs.find? (·.startsWith "sc=")).getD "sc=?"
-      s!"OK nt b=e2e-{(sc.drop 3).toString}"
+      let en := match fs.find? (·.startsWith "en=") with
+        | some e => (e.drop 3).toString ++ "-"
+        | none => ""
+      s!"OK nt b=e2e-{en}{(sc.drop 3).toString}"
 
 def judge : Handler
   | "fwd" :: fs, out => judgeFwd fs out
   | "e2e" :: fs, out => judgeE2E fs out
+  | "web" :: fs, out => judgeE2E fs out
   | _, _ => "BAD c01 line"
 
 def handle : Handler := judge
